@@ -40,6 +40,8 @@ func (s *Server) isValidRequest(req SignedMessage) error {
 		}
 	}
 
+	verifhook.Point("irctl.auth.afterKeyScan")
+
 	if !allowed {
 		return errDisallowedKey
 	}
